@@ -355,7 +355,15 @@ func (c07) Exec(c *core.Case) (out *core.Outcome) {
 			case q.OwnPrefix:
 				sig = fmt.Sprintf("C07/directory-object-under-its-own-prefix/%s/delim=%s", kind, delimClass(q.Delim))
 			case feature(keys, q) != "plain":
-				sig = "C07/" + feature(keys, q)
+				// by input feature AND symptom: a new kind of breakage on such inputs is not covered by a listed one
+				// With the '/' delimiter the unchanged tree shows only a few symptoms on such inputs, so the
+				// symptom is part of the signature and a new kind of breakage is reported. Without a delimiter
+				// or with another delimiter practically every symptom occurs already: one signature per class.
+				if q.Delim == "/" {
+					sig = "C07/" + feature(keys, q) + "/" + kind + "/delim=slash"
+				} else {
+					sig = "C07/" + feature(keys, q) + "/any-symptom/delim=" + delimClass(q.Delim)
+				}
 			}
 			o.Violate("listing", sig, "%s: "+format, append([]any{desc}, a...)...)
 			o.SetReplayP(one())
